@@ -15,7 +15,7 @@ Definition t_err (e : err) : tree :=
   I (match e with
      | StructError => 1 | UnicodeError => 2 | IndexError => 3 | KeyError => 4
      | ValueError => 5 | AssertionError => 6 | NotImplementedErr => 7 | FileExists => 8
-     | FileNotFound => 9 | OsError => 10 | TypeError => 11 | OutOfFuel => 99 end).
+     | FileNotFound => 9 | OsError => 10 | TypeError => 11 | ImportErr => 12 | OutOfFuel => 99 end).
 (* result printed as (1 v) for Ok and (0 code) for Raise *)
 Definition t_result {A} (f : A -> tree) (r : result A) : tree :=
   match r with Ok a => L [I 1; f a] | Raise e => L [I 0; t_err e] end.
